@@ -132,7 +132,6 @@ def oracle(c, r):
     reads = {x["at"]: x for x in r["reads"]}
     iv = c["interval_ms"]
     mon, net_up, arch, det = "none", True, "none", False
-    conn_ever = False      # the detector may hold a connection made while the listener was open
     stable = 0             # pull intervals since the last change of the ground truth
     since_det = 0
     cause = "never-started"
@@ -141,8 +140,6 @@ def oracle(c, r):
         k = e["e"]
         if k == "wait":
             stable += e["k"]; since_det += e["k"] if det else 0
-            if det and mon == "listening" and net_up and e["k"] >= 3:
-                conn_ever = True
             continue
         if k == "read":
             o = reads.get(i)
@@ -170,11 +167,11 @@ def oracle(c, r):
         if k == "det_start":
             det = True; since_det = 0
         elif k == "mon_start":
-            mon = "listening"; arch = "none"; cause = "monitor-restart-without-archetype"; conn_ever = False
+            mon = "listening"; arch = "none"; cause = "monitor-restart-without-archetype"
         elif k == "mon_close":
             mon = "closed"; cause = "monitor-close"
         elif k == "crash":
-            mon = "crashed"; arch = "none"; cause = "monitor-crash"; conn_ever = False
+            mon = "crashed"; arch = "none"; cause = "monitor-crash"
         elif k == "net_down":
             net_up = False; cause = "partition"
         elif k == "net_up":
